@@ -181,7 +181,7 @@ static void sub_precond() {
         std::string cell = std::string(noprm ? "default" : COARSENINGS[ci]) + "+" + (noprm ? "default" : RELAXATIONS[ri]);
         c.check(e_c == e_cpp, "precond:create:outcome-differs-from-c++", "C [" + e_c + "] C++ [" + e_cpp + "]");
         c.check(e_f == e_c, "precond_f:create:outcome-differs-from-0-based", "1-based [" + e_f + "] 0-based [" + e_c + "]");
-        if (!e_c.empty() || !e_cpp.empty() || !e_f.empty()) { vf::obs_sum("precond_cases_with_exception"); vf::obs_add("exceptions_seen_on_both_sides", e_cpp.substr(0, 60)); continue; }
+        if (!e_c.empty() || !e_cpp.empty() || !e_f.empty()) { vf::obs_sum("precond_cases_with_exception"); { std::string m = e_cpp.substr(0, 60); for (auto &ch : m) if (ch == ',') ch = ';'; vf::obs_add("exceptions_seen_on_both_sides", m); } continue; }
         bool ok0 = true, ok1 = true, fin = true; for (size_t k = 0; k < rhs.size(); ++k) { ok0 = ok0 && x0[k].same(xr[k]); ok1 = ok1 && x1[k].same(x0[k]); for (double v : xr[k]) if (!std::isfinite(v)) fin = false; }
         c.check(ok0, "precond:apply:differs-from-c++", "amgcl_precond_apply result is not bitwise the C++ amg::apply result (" + cell + ")");
         c.check(ok1, "precond_f:apply:differs-from-0-based", "1-based create gives a different preconditioner (" + cell + ")");
@@ -225,7 +225,7 @@ static void sub_solver() {
         std::string sn = noprm ? "default" : SOLVERS[si];
         c.check(e_c == e_cpp, "solver:create-solve:outcome-differs-from-c++", "C [" + e_c + "] C++ [" + e_cpp + "]");
         c.check(e_f == e_c, "solver_f:create-solve:outcome-differs-from-0-based", "1-based [" + e_f + "] 0-based [" + e_c + "]");
-        if (!e_c.empty() || !e_cpp.empty() || !e_f.empty()) { vf::obs_sum("solver_cases_with_exception"); vf::obs_add("exceptions_seen_on_both_sides", e_cpp.substr(0, 60)); continue; }
+        if (!e_c.empty() || !e_cpp.empty() || !e_f.empty()) { vf::obs_sum("solver_cases_with_exception"); { std::string m = e_cpp.substr(0, 60); for (auto &ch : m) if (ch == ',') ch = ';'; vf::obs_add("exceptions_seen_on_both_sides", m); } continue; }
         c.check(i0.iterations == (int)it_r && !memcmp(&i0.residual, &rs_r, 8) && x0.same(x_r), "solver:solve:differs-from-c++", "(iterations, residual, x) of amgcl_solver_solve differ from the C++ make_solver (" + sn + ")", J().n("it_c", i0.iterations).n("it_cpp", it_r).n("res_c", i0.residual).n("res_cpp", rs_r));
         c.check(m0.iterations == (int)jt_r && !memcmp(&m0.residual, &qs_r, 8) && y0.same(y_r), "solver:solve_mtx:differs-from-c++", "(iterations, residual, x) of amgcl_solver_solve_mtx differ from the C++ make_solver (" + sn + ")", J().n("it_c", m0.iterations).n("it_cpp", jt_r));
         c.check(i1.iterations == i0.iterations && !memcmp(&i1.residual, &i0.residual, 8) && x1.same(x0), "solver_f:solve:differs-from-0-based", "amgcl_solver_solve_f differs from amgcl_solver_solve (" + sn + ")", J().n("it_f", i1.iterations).n("it_c", i0.iterations));
